@@ -543,7 +543,7 @@ where
             .retain(|prop| !matches!(prop, crate::mqtt::packet::Property::TopicAlias(_)));
 
         // Recalculate property_length and remaining_length
-        self.recalculate_lengths();
+        self.try_recalculate_lengths()?;
 
         Ok(self)
     }
@@ -643,7 +643,7 @@ where
         self.topic_name_extracted = true;
 
         // Recalculate remaining_length (property_length stays the same)
-        self.recalculate_lengths();
+        self.try_recalculate_lengths()?;
 
         Ok(self)
     }
@@ -753,9 +753,20 @@ where
     /// - Property length based on the current properties
     /// - Remaining length including topic name, packet ID (if QoS > 0), properties, and payload
     fn recalculate_lengths(&mut self) {
+        self.try_recalculate_lengths()
+            .expect("rewritten PUBLISH exceeds the largest Remaining Length")
+    }
+
+    /// Like `recalculate_lengths`, for the helpers that can make the packet grow: a PUBLISH
+    /// close to the largest Remaining Length (268,435,455) may not have room for a longer
+    /// topic name or one more property. Reports `PacketTooLarge` instead of panicking.
+    fn try_recalculate_lengths(&mut self) -> Result<(), MqttError> {
         // Calculate property length
         let props_size: usize = self.props.size();
-        self.property_length = VariableByteInteger::from_u32(props_size as u32).unwrap();
+        self.property_length = u32::try_from(props_size)
+            .ok()
+            .and_then(VariableByteInteger::from_u32)
+            .ok_or(MqttError::PacketTooLarge)?;
 
         // Calculate remaining length
         let mut remaining_size = self.topic_name_buf.size();
@@ -775,7 +786,11 @@ where
         // Add payload size
         remaining_size += self.payload_buf.len();
 
-        self.remaining_length = VariableByteInteger::from_u32(remaining_size as u32).unwrap();
+        self.remaining_length = u32::try_from(remaining_size)
+            .ok()
+            .and_then(VariableByteInteger::from_u32)
+            .ok_or(MqttError::PacketTooLarge)?;
+        Ok(())
     }
 
     /// Returns the total size of the PUBLISH packet in bytes
